@@ -136,7 +136,8 @@ def _valid_history(parents: Tuple[int, ...], incl: List[int]) -> bool:
 
 
 def store_roundtrip(parents: Tuple[int, ...], flush_mask: int, sym: Tuple[int, ...] = (0, 1, 2, 3), spends: Optional[Tuple[int, ...]] = None,
-                    exclude_known: bool = True, only_known: bool = False, rewrite: Optional[int] = None, twin: bool = False, real: bool = False):
+                    exclude_known: bool = True, only_known: bool = False, rewrite: Optional[int] = None, ids_descending: bool = False,
+                    twin: bool = False, real: bool = False):
     """rewrite: index of a block that is buffered and flushed a second time at the end.
     sym: indices of the blocks whose reward (key, value) and pending-transaction inclusion are symbolic; the others get
     concrete, pairwise different rewards and do not include the pending transaction."""
@@ -161,15 +162,15 @@ def store_roundtrip(parents: Tuple[int, ...], flush_mask: int, sym: Tuple[int, .
         if spends is not None and list(incl) != list(spends):
             return True          # which extra transaction each block carries is a case split of this instance
         for i, (k, v, d) in enumerate(zip(keys, vals, datas)):
-            if not (0 <= k <= 1 and 1 <= v <= 2 * 10 ** 9 and 0 <= d <= 2):
-                return True
+            if not (0 <= k <= 1 and 0 <= v <= 2 * 10 ** 9 and 0 <= d <= 2):
+                return True         # a reward output may carry the value 0 (the rules bound only the total)
             if i not in sym and not (k == i % 2 and v == 100 + i and d == 0 and (spends is not None or incl[i] == 0)):
                 return True
         if not _valid_history(parents, incl):
             return True          # not a valid history (an output spent twice along one chain)
         if not real:
             from symlib.stubs.oracles import LRO, install_hashes
-            install_hashes(LRO(0x07), None, None)
+            install_hashes(LRO(0x07, descending=ids_descending), None, None)
         g, blocks, heights, pending = _build_blocks(env, gen, parents, keys, vals, datas, incl)
         # the listed finding's input class: two stored blocks contain a transaction with the same id
         txids: List[Tuple[int, bytes]] = []
@@ -423,6 +424,21 @@ def stub_vs_sqlite():
                     except Exception as e:  # noqa
                         events.append(type(e).__name__)
                     cur.close()
+            if kind == "sql-replace":
+                cur = store.connection.cursor()
+                cur.execute("CREATE TABLE probe (a int CHECK (a > 0), b blob, c int CHECK (c <= 5), PRIMARY KEY(b))")
+                for (stmt, row) in (("insert or ignore into probe values (?,?,?)", (1, b"k1", 5)), ("insert or ignore into probe values (?,?,?)", (0, b"k2", 1)),
+                                    ("insert into probe values (?,?,?)", (2, b"k3", 6)), ("insert or replace into probe values (?,?,?)", (0, b"k1", 1)),
+                                    ("insert or ignore into probe values (?,?,?)", (None, b"k0", 2)), ("insert or ignore into probe values (?,?,?)", (7, b"k9", 2)),
+                                    ("insert or ignore into probe values (?,?,?)", (7, b"k5", 1))):
+                    try:
+                        cur.execute(stmt, row)
+                        events.append("ok")
+                    except Exception as e:  # noqa
+                        events.append(type(e).__name__)
+                events.append([tuple(r) for r in store.sql("select a, b, c from probe order by a, c")])
+                events.append([tuple(r) for r in store.sql("select block_hash from transaction_locator order by block_hash, transaction_hash")])
+                cur.close()
             tables = {}
             for t in ("chain", "transaction_locator", "transaction_inputs", "transaction_outputs"):
                 tables[t] = [tuple(r) for r in store.sql("select * from %s" % t)]
@@ -502,6 +518,12 @@ def obligations(tier: str, known: List[str]) -> List[Ob]:
         obs.append(Ob("block-written-again-after-its-child[parents=%s,extra-tx=%s,flush=%s,again=%d]" % (
             "".join(map(str, parents)), "".join(map(str, sp)), format(mask, "0%db" % (len(parents) - 1)), rw), C_1 + "; " + C_2, "store_roundtrip",
             {"parents": parents, "flush_mask": mask, "sym": tuple(range(len(parents)))[(-2 if thorough else -1):], "spends": sp, "exclude_known": excl, "rewrite": rw}, timeout=T))
+    # the byte order of transaction ids relative to their position in the block is arbitrary: the same with ids handed out in
+    # descending order (real mode: real hashes)
+    for (parents, sp, mask) in (((0, 1), (1, 3), 1), ((0, 0), (1, 2), 0)):
+        obs.append(Ob("roundtrip[parents=%s,extra-tx=%s,flush=%s,ids-descending]" % ("".join(map(str, parents)), "".join(map(str, sp)), mask),
+                      C_1 + "; " + C_2, "store_roundtrip", {"parents": parents, "flush_mask": mask, "sym": (1,), "spends": sp,
+                                                            "exclude_known": excl, "ids_descending": True}, timeout=T))
     obs.append(twin_of([o for o in obs if o.name.startswith("roundtrip[parents=00,")][0], timeout=300))
     obs.append(Ob("block-added-while-a-flush-is-writing", C_1, "concurrent_add", {}, timeout=T))
     obs.append(Ob("finding[shared-transaction-id]", C_1, "store_roundtrip",
